@@ -94,19 +94,16 @@ impl SchedulerCore {
     /// If a queue is idle and has pending jobs, places it in the schedule
     ///
     pub (super) fn reschedule_queue(&self, queue: &Arc<JobQueue>, core: Arc<SchedulerCore>) {
-        let reschedule = {
+        let (reschedule, to_notify) = {
             let mut core = queue.core.lock().expect("JobQueue core lock");
 
-            // Signal any waiting condition variables
-            core.wake_blocked.iter_mut()
-                .for_each(|cond_var| {
-                    if let Some(cond_var) = cond_var.upgrade() {
-                        cond_var.notify_one();
-                    }
-                });
-            core.wake_blocked.retain(|cond_var| cond_var.strong_count() > 0);
+            // Collect any waiting condition variables (they're signalled once the queue lock is released)
+            core.wake_blocked.retain(|(cond_var, _)| cond_var.strong_count() > 0);
+            let to_notify = core.wake_blocked.iter()
+                .filter_map(|(cond_var, waiting)| Some((cond_var.upgrade()?, waiting.upgrade()?)))
+                .collect::<Vec<_>>();
 
-            match core.state {
+            let reschedule = match core.state {
                 QueueState::Idle => {
                     // Schedule a thread to restart the queue if more things were queued
                     if core.queue.len() > 0 {
@@ -129,8 +126,16 @@ impl SchedulerCore {
                     // Not scheduled
                     false
                 }
-            }
+            };
+
+            (reschedule, to_notify)
         };
+
+        // Signal the blocked threads. Holding the mutex a thread waits with means this can't fall between that thread deciding to wait and actually waiting
+        for (cond_var, waiting) in to_notify {
+            let _waiting = waiting.lock();
+            cond_var.notify_one();
+        }
 
         if reschedule {
             self.schedule.lock().expect("Schedule lock").push_back(queue.clone());
